@@ -73,6 +73,15 @@ CHECKS = {
   note=TRUST + 'Recogniser checks exactly the items the property lists (8-bit bytes in quoted strings are not flagged). '
        'Outside: whole-session streams, structures produced inside the email package.',
   technique='symbolic execution of the real serialisers with z3, independent grammar recogniser as oracle'),
+ 'C08': dict(
+  text='Bounded symbolic execution of the real maildir layout code (both layouts: get_folder/get_path + control-file paths, add_folder, '
+       'remove_folder, rename_folder, list_folders) with every character of the mailbox name(s) symbolic (all names up to 3 quick / 4 '
+       'thorough characters incl. empty, ".", "..", "/", doubled delimiters, NUL; RENAME with two symbolic names) against a recording stub '
+       'file system whose answers are forks: every path passed to a file-system call, normalised lexically, stays inside the user root, '
+       'and removal/rename/creation targets are strictly inside it.',
+  note=TRUST + 'os/os.path/open/Maildir are stubs; os.path.join is a sym-aware port of posixpath.join. Lexical confinement only '
+       '(no symlinks). Outside: the real file system; the dict half (one MailboxSet per identity, structural).',
+  technique='symbolic execution of the real path-construction code with z3, recording stub file system, lexical confinement oracle'),
  'C09': dict(
   text='Bounded symbolic execution of the real login path (ConnectionState._login/do_login/do_authenticate/capability/do_greeting/'
        'do_starttls, dict Login.authenticate/authorize, Identity.get/new_session, UserMetadata.compare_*, pysasl PlainCredentials) with '
